@@ -40,7 +40,9 @@ def real_code_crash(stderr):
         if line.startswith("github.com/relex/slog-agent/"):
             fn = line.rsplit("(", 1)[0] if line.endswith(")") else line
             return fn.replace("github.com/relex/slog-agent/", "").replace("(*", "").replace(")", "")[:120]
-        return None
+        if line.startswith("verifharness/") or line.startswith("main."):
+            return None      # the harness called into whatever died: not attributable
+        # a frame of the standard library or of a third-party module (prometheus client, yaml, ...): look further up
     return None
 
 
